@@ -274,8 +274,10 @@ func (qr *QR) SolveTo(dst *Dense, trans bool, b Matrix) error {
 		}
 		dst.reuseAsNonZeroed(c, bc)
 	}
-	// Do not need to worry about overlap between m and b because x has its own
-	// independent storage.
+	// The solution is computed in independent storage, but it is
+	// copied into dst at the end, so dst must not overlap b.
+	bU, _ := untranspose(b)
+	dst.checkOverlapMatrix(bU)
 	w := getDenseWorkspace(max(r, c), bc, false)
 	w.Copy(b)
 	t := qr.qr.asTriDense(qr.qr.mat.Cols, blas.NonUnit, blas.Upper).mat
@@ -349,5 +351,11 @@ func (qr *QR) SolveVecTo(dst *VecDense, trans bool, b Vector) error {
 	} else {
 		dst.reuseAsNonZeroed(c)
 	}
-	return qr.SolveTo(dst.asDense(), trans, bm)
+	m := dst.asDense()
+	if dst == b {
+		// Prevent the overlap detection code from identifying
+		// m and bm as overlapping but not identical.
+		bm = m
+	}
+	return qr.SolveTo(m, trans, bm)
 }
